@@ -5,10 +5,18 @@ From Coq Require Import List NArith Bool.
 From Quill Require Import Queue.BQDefs Backend.BEDefs Backend.BEExec Backend.BEInv Backend.BECount Backend.BEFlush Backend.OrdSim TieC06.
 Import ListNotations.
 Local Open Scope N_scope.
+From Quill Require TieMBE.
 From Quill Require TieBE ExpectedBE.
 
 (* T-src: the BackendWorker methods this property's part of M-BE re-states are, statement by statement, the ones the model
    was written against and compared with (ExpectedBE.v; the whole loop is tied in Properties_C03.C03_tie_backend_loop) *)
+(* T-src: the two abstractions M-BE makes - a thread's queue is an atomic FIFO (C01 / C02), registration and cache refresh
+   are atomic steps (registration protocol of C03) - hold for the memory orders, statement orders and shapes found in the
+   source (TieMBE.v spells the facts out) *)
+Theorem C06_tie_MBE_abstractions : Quill.TieMBE.MBE_abstractions_hold.
+Proof. exact Quill.TieMBE.mbe_abstractions. Qed.
+Print Assumptions C06_tie_MBE_abstractions.
+
 Theorem C06_tie_backend_methods :
   QuillGen.SrcFacts.sk_be_process_transit_event = Quill.ExpectedBE.sk_be_process_transit_event /\
   QuillGen.SrcFacts.sk_be_flush_and_run_active_sinks = Quill.ExpectedBE.sk_be_flush_and_run_active_sinks /\
